@@ -137,6 +137,8 @@ def plan(tier, seed):
             shards.append(("sparse", k, s, min(len(subsets), s + step)))
     for c in range(4):
         shards.append(("scan", c, 4, tier))
+    shards.append(("serpentine", tier, nthreads))
+    shards.append(("callers", tier))
     for shp, bd, T, b, stride in sched:
         if bd == "low7":
             perms = 5040
@@ -268,6 +270,84 @@ def _run_sparse(desc):
     return sh
 
 
+def serpentine(shape, reverse=False, walls="low"):
+    """an image whose single ridge winds through the whole interior (corridor rows joined at alternating ends): the ascent from the
+    start of the ridge is much longer than dim0 + dim1; wall pixels all differ and lie below the ridge"""
+    d0, d1 = shape
+    im = np.zeros(shape, np.float32)
+    k = 0
+    for i in range(d0):
+        for j in range(d1):
+            k += 1
+            im[i, j] = -1.0 - 0.001 * ((k * 7919) % (d0 * d1))          # distinct negative background
+    path = []
+    rows = list(range(1, d0 - 1, 2))
+    for n_, i in enumerate(rows):
+        cols = list(range(1, d1 - 1))
+        if n_ % 2:
+            cols = cols[::-1]
+        path += [(i, j) for j in cols]
+        if n_ + 1 < len(rows):
+            path.append((i + 1, cols[-1]))
+    if reverse:
+        path = path[::-1]
+    for v, (i, j) in enumerate(path):
+        im[i, j] = 10.0 + v
+    return im, len(path)
+
+
+def _run_serpentine(desc):
+    _, tier, nthreads = desc
+    from ImageD11 import cImageD11 as cI
+    sh = Shard()
+    shapes = [(9, 8), (8, 9), (13, 11), (17, 16)] if tier == "quick" else [(9, 8), (8, 9), (13, 11), (17, 16), (16, 17), (33, 32), (65, 64)]
+    for shp in shapes:
+        for rev in (False, True):
+            im, plen = serpentine(shp, rev)
+            case = {"kind": "serpentine", "shape": list(shp), "reverse": rev, "ridge_length": plen}
+            _dense_case(sh, cI, im, nthreads, case)
+            sh.counters["max_ridge_length"] = max(sh.counters.get("max_ridge_length", 0), plen)
+    sh.sample(case, limit=1)
+    return sh
+
+
+def _run_callers(desc):
+    """sparse_localmaxlabel is declared threadsafe (GIL released): two calls on different frames as two logical threads on the
+    schedule-exploring runtime, every interleaving at shared words within 2 preemptions; each call's labels are those it produces alone"""
+    _, tier = desc
+    from vt.vrt import callers_interfere
+    from vt.sani import Call, A, I
+    sh = Shard()
+    V = _vrt()
+    fr = []
+    for cells, order in SCAN_FRAMES:
+        if len(cells) == 0:
+            continue
+        ii = np.array([q // 4 for q in cells], np.uint16); jj = np.array([q % 4 for q in cells], np.uint16)
+        fr.append((ii, jj, (10.0 * (np.array(order, np.float32) + 1)).astype(np.float32)))
+
+    def spec(f):
+        ii, jj, v = f
+        n = len(ii)
+        return Call("sparse_localmaxlabel", [A(v), A(ii), A(jj), I(n), A(np.full(n, -7.0, np.float32), "out"), A(np.full(n, -7, np.int32), "out"),
+                                             A(np.full(n, -7, np.int32), "out")])
+    pairs = [(a, b) for a in range(len(fr)) for b in range(len(fr)) if a != b]
+    if tier == "quick":
+        pairs = pairs[::4]
+    for a, b in pairs:
+        bad, r = callers_interfere(V, spec(fr[a]), spec(fr[b]))
+        case = {"kind": "callers", "frames": [a, b]}
+        for sched in (bad or [])[:1]:
+            sh.violation("concurrent-callers:sparse_localmaxlabel-calls-interfere", dict(case, schedule=sched), {"conflict_words": r["filter_size"]})
+        sh.states += r["nodes"]
+        sh.transitions += r["nodes"] - 1 + r["executions"]
+        sh.count("caller_pair_executions", r["total_executions"])
+        sh.evaluations += 1
+        sh.nontrivial += 1
+    sh.sample(case, limit=1)
+    return sh
+
+
 SCAN_FRAMES = [  # (cells of a 4x4 grid, value order) : sparse patterns with gaps, long ascents, several maxima, a single pixel, empty
     ((0, 1, 2, 3, 7, 11, 15), (0, 1, 2, 3, 4, 5, 6)), ((0, 1, 2, 3, 7, 11, 15), (6, 5, 4, 3, 2, 1, 0)), ((0, 5, 10, 15), (3, 0, 2, 1)),
     ((0, 2, 8, 10), (0, 1, 2, 3)), ((5,), (0,)), ((), ()), (tuple(range(16)), tuple((k * 7) % 16 for k in range(16))),
@@ -338,16 +418,23 @@ def _run_scan(desc):
                             sh.violation("SparseScan.lmlabel:total", case, {})
                     sh.evaluations += 1
                     sh.nontrivial += 1
-            # the frame-level wrapper
-            for t in set(trip):
+            # the frame-level wrapper: each frame right after labelling, and every frame AGAIN after the whole series was labelled
+            kept = []
+            for t in trip:
                 ii, jj, v = fr[t]
                 if len(ii) == 0:
                     continue
                 f = sf.sparse_frame(ii.copy(), jj.copy(), (4, 4), pixels={"intensity": v.copy()})
                 nl = sf.sparse_localmax(f)
                 want, n_want = sparse_oracle(ii, jj, v)
+                kept.append((f, want))
                 if nl != n_want or not np.array_equal(O.canon_labels(f.pixels["localmax"]), O.canon_labels(want)):
-                    sh.violation("sparse_localmax:wrapper", {"kind": "scan", "frames": [t, t, t], "smooth": False, "countall": False}, {"labels": f.pixels["localmax"]})
+                    sh.violation("sparse_localmax:wrapper", {"kind": "scan", "frames": list(trip), "smooth": False, "countall": False}, {"labels": f.pixels["localmax"]})
+            for f, want in kept:
+                if not np.array_equal(O.canon_labels(f.pixels["localmax"]), O.canon_labels(want)):
+                    sh.violation("sparse_localmax:labels-of-an-earlier-frame-changed-when-later-frames-were-labelled",
+                                 {"kind": "scan", "frames": list(trip), "smooth": False, "countall": False}, {"labels": f.pixels["localmax"], "expected": want})
+                    break
         sh.sample(case, limit=1)
         sh.outcomes.add("scan")
     finally:
@@ -474,6 +561,10 @@ def run_shard(desc):
         return _run_sparse(desc)
     if desc[0] == "scan":
         return _run_scan(desc)
+    if desc[0] == "serpentine":
+        return _run_serpentine(desc)
+    if desc[0] == "callers":
+        return _run_callers(desc)
     return _run_sched(desc)
 
 
@@ -492,6 +583,14 @@ def replay(case):
     if case["kind"] == "sparse":
         _sparse_case(sh, cI, case["cells"], case["perm"])
         return (not sh.violations), {"violations": sh.violations}
+    if case["kind"] == "serpentine":
+        im, plen = serpentine(tuple(case["shape"]), case["reverse"])
+        _dense_case(sh, cI, im, [case.get("nthreads", 1)], case)
+        return (not sh.violations), {"violations": sh.violations}
+    if case["kind"] == "callers":
+        r = _run_callers(("callers", "thorough"))
+        v = [x for x in r.violations if x["case"]["frames"] == case["frames"]]
+        return (not v), {"violations": v[:2]}
     if case["kind"] == "scan":
         r = _run_scan(("scan", 0, 1, "thorough"))
         v = [x for x in r.violations if x["case"]["frames"] == case["frames"]]
